@@ -55,6 +55,12 @@ def setup():
             log("setup: native small-scope search did not agree on the unchanged tree (%s)" % st)
             log(txt[-2000:])
             return 1
+        for name, spec in verus_engine.NATIVE_SEARCHES.items():
+            st, txt = spec["run"]()
+            if st != "agree":
+                log("setup: %s did not agree on the unchanged tree (%s)" % (name, st))
+                log(txt[-2000:])
+                return 1
         import extract_bevy
         cdir, _ = extract_bevy.write_crate(d)
         out = vlib.run_kani(cdir, None, ["verif::animator_api_contract"], timeout_s=600, jobs=1)
@@ -256,6 +262,29 @@ def run_check(pid, tier, seed, only=None, keep=False):
             for rec in [r for r in violations if r["engine"] == "kani" and "replay_file" not in r]:
                 h = next(x for x in kani_sel if x["id"] == rec["id"])
                 confirm_kani_failure(pid, h["_srepo"], h, rec)
+        # ------------ bounded native searches on the real code: always for the properties that register them; as a stand-in
+        # (a disagreement is a violation with a concrete input; agreement decides nothing) when a bounded Kani obligation
+        # they shadow came back undecided or failed without a replayable input
+        import verus_engine as _ve
+        wanted = [n for n in pinfo.get("native", []) if not only or n in only]
+        for rec in undecided + [r for r in violations if not r.get("native_confirmed")]:
+            if rec.get("engine") != "kani":
+                continue
+            if rec["id"].startswith("builder_args_n") and "native_builder_search" not in wanted:
+                wanted.append("native_builder_search")
+            if re.match(r"(prepare_frame|search_index|bsearch_contract)_n", rec["id"]) and "native_prepare_search" not in wanted:
+                wanted.append("native_prepare_search")
+            if rec["id"].startswith("merged") and "native_merged_search" not in wanted:
+                wanted.append("native_merged_search")
+            if ("derive" in (rec.get("harness") or "") or "::update_contract" in rec["id"]) and "native_derive_search" not in wanted:
+                wanted.append("native_derive_search")
+        for name in wanted:
+            nrec = _ve.native_record(pid, name, _NATIVE_CACHE)
+            per.append(nrec)
+            if nrec["verdict"] == "fail":
+                violations.append(nrec)
+            elif nrec["verdict"] == "undecided" and name in pinfo.get("native", []):
+                undecided.append(nrec)
     except Undecided as e:
         log("UNDECIDED: %s" % e)
         if not keep:
@@ -305,6 +334,10 @@ def run_check(pid, tier, seed, only=None, keep=False):
     return 0
 
 
+_DERIVE_NATIVE = {}
+_NATIVE_CACHE = {}
+
+
 def confirm_kani_failure(pid, srepo, h, rec):
     """Counterexample -> native replay on the real code. Fills rec[replay_file, native_confirmed]."""
     payload = {
@@ -349,6 +382,23 @@ def confirm_kani_failure(pid, srepo, h, rec):
         payload["native_runs"] = outs
     except Undecided as e:
         payload["replay_error"] = str(e)
+    if not confirmed and h.get("tests") and h.get("pkg") == "mina" and "derive" in (h.get("file") or ""):
+        # L-GEN harnesses run the generated code against scripted stubs, so their counterexamples cannot be replayed natively;
+        # search a concrete failing input on the real derive output with the real callees (bounded, native)
+        try:
+            import verus_engine
+            if "native_derive_search" not in _NATIVE_CACHE:
+                _NATIVE_CACHE["native_derive_search"] = verus_engine.native_derive_search()
+            _DERIVE_NATIVE["status"], _DERIVE_NATIVE["txt"] = _NATIVE_CACHE["native_derive_search"]
+            if _DERIVE_NATIVE["status"] == "disagree":
+                confirmed = True
+                payload["kind"] = "native_derive_search"
+                payload["native_output"] = _DERIVE_NATIVE["txt"]
+                payload["note"] = "failing input found by the bounded native search on the real derive(Animate) output (see native_output)"
+            else:
+                payload["native_derive_search"] = _DERIVE_NATIVE["status"] + ": " + _DERIVE_NATIVE["txt"][-600:]
+        except Exception as e:  # the search is an extra; never let it mask the verdict
+            payload["native_derive_search"] = "could not run: %s" % str(e)[:300]
     payload["native_confirmed"] = confirmed
     if not confirmed:
         payload["note"] = ("no-failing-input-found: the obligation verified on the pinned tree and now fails; the verifier's "
@@ -359,6 +409,17 @@ def confirm_kani_failure(pid, srepo, h, rec):
 
 def replay(pid, path):
     payload = json.load(open(path))
+    if payload.get("kind") in ("native_derive_search", "native_builder_search"):
+        import verus_engine
+        status, txt = verus_engine.NATIVE_SEARCHES[payload["kind"]]["run"]()
+        print(txt[-3000:])
+        if status == "disagree":
+            print("VIOLATION property=%s replay=%s" % (pid, path))
+            return 1
+        if status == "agree":
+            print("replay passes on the current tree")
+            return 0
+        return 2
     if payload.get("kind") == "native_small_scope":
         import verus_engine
         status, txt = verus_engine.native_small_scope()
